@@ -237,6 +237,7 @@ class Recorder:
     def __init__(self):
         self.day = None
         self.ids = None
+        self.fail_gd = False
 
     def install(self):
         for name, short, args, res in SPEC:
@@ -263,6 +264,8 @@ class Recorder:
                 return orig(*a, **k)
             if k:
                 raise RuntimeError("keyword call of " + name)
+            if short == "gd" and rec.fail_gd:
+                raise ZeroDivisionError("injected failure of growing_degree_day")
             d["args"][short] = [rec._enc(ty, f(a)) for (_, ty, f) in args]      # snapshot BEFORE the call (in-place updates)
             r = orig(*a)
             d["res"][short] = [rec._enc(ty, f(r)) for (_, ty, f) in res]
@@ -274,13 +277,13 @@ class Recorder:
 ORDER_GS = ["gd", "gw", "rd", "pi", "dr", "rp", "ir", "inf", "cr", "ge", "gst", "cc", "ev", "tr", "gi", "hr", "bm", "hi", "rz"]
 
 
-def run_sim(cfg, max_days=None):
+def run_sim(cfg, max_days=None, fail_gd_on=None):
     """returns dict(days=[...], resets=[...], error=None|info).  A day: dict(line tokens, expected tokens)."""
     try:
         m = sim.build_model(cfg)
         m._initialize()
     except Exception as e:       # the configuration is rejected at initialisation: nothing to replay
-        return {"days": [], "resets": [], "error": dict(sim.exc_info(e), at="init")}
+        return {"days": [], "resets": [], "malformed": [], "error": dict(sim.exc_info(e), at="init")}
     cs = m._clock_struct
     ps = m._param_struct
     start = pd.Timestamp(cs.simulation_start_date)
@@ -290,6 +293,8 @@ def run_sim(cfg, max_days=None):
     rec.ids = Ids(ps)
     days = []
     resets = []
+    malformed = []
+    last = {}
     names0 = set(n for n, _ in STATE) | set(CLOCK_FIELDS)
 
     def step(init_cond, param_struct, clock_struct, weather_step, outputs):
@@ -314,10 +319,22 @@ def run_sim(cfg, max_days=None):
         pre = enc_state(ic)
         nfinal0 = len(outputs.final_stats)
         rec.day = d
+        rec.fail_gd = fail_gd_on is not None and len(days) == fail_gd_on
         try:
             r = _ORIG_STEP(init_cond, param_struct, clock_struct, weather_step, outputs)
+        except ZeroDivisionError:
+            # malformed stream: the first process of the day raised -> the step raises and nothing is written; on the
+            # model side the same recorded day without a growing_degree_day result (the other results are placeholders)
+            if rec.fail_gd and last and not d["res"]:
+                line = clock + par + weather + pre + ["N"]
+                for name, short, args, res in SPEC[1:]:
+                    line += last[short]
+                malformed.append({"line": " ".join(line), "exp": ["N"], "tsc": tsc})
+            raise
         finally:
             rec.day = None
+            rec.fail_gd = False
+        last.clear(); last.update(d["res"])
         nc = r[0]
         # ---- expected outputs
         exp = [eZ(nc.dap), eB(nc.crop_mature), eB(nc.harvest_flag)] + enc_state(nc)
@@ -349,6 +366,12 @@ def run_sim(cfg, max_days=None):
         d["gs"] = gs; d["summary"] = len(outputs.final_stats) > nfinal0
         d["order_ok"] = d["order"] == (ORDER_GS if gs else ORDER_GS[1:])
         d["method"] = int(param_struct.IrrMngt.irrigation_method)
+        fm = param_struct.FieldMngt if gs else param_struct.FallowFieldMngt
+        d["flags"] = {"water_table_days": wt == 1, "irrigated_days": bool(fl[6] > 0), "net_irrigation_days": bool(gs and d["method"] == 4 and fl[6] > 0),
+                      "crop_dead_days": bool(nc.crop_dead), "mature_flag_set": bool(nc.crop_mature) and not (clock[3] == "T"),
+                      "off_season_after_first_planting": (not gs) and season >= 0, "bunds_days": bool(fm.bunds), "mulch_days": bool(fm.mulches),
+                      "cn_adjust_days": bool(fm.curve_number_adj), "ponding_days": bool(fl[5] > 0), "runoff_days": bool(fl[8] > 0),
+                      "capillary_rise_days": bool(fl[10] > 0), "gw_inflow_days": bool(fl[11] > 0), "gdd_crop_days": int(crop.CalendarType) == 2}
         del d["args"], d["res"]
         days.append(d)
         return r
@@ -384,7 +407,7 @@ def run_sim(cfg, max_days=None):
         rec.uninstall()
         core.solution_single_time_step = _ORIG_STEP
         UT.reset_initial_conditions = _ORIG_RESET
-    return {"days": days, "resets": resets, "error": err}
+    return {"days": days, "resets": resets, "error": err, "malformed": malformed}
 
 
 # ---------------------------------------------------------------------------------------------------------------
@@ -402,6 +425,10 @@ def worker(payload):
            "pre_season_days": sum(1 for d in o["days"] if d["season"] < 0), "order_bad": sum(1 for d in o["days"] if not d["order_ok"]),
            "method": o["days"][0]["method"] if o["days"] else None,
            "resets_gdd": sum(1 for r in o["resets"] if r["caltype"] == 2), "resets_off": sum(1 for r in o["resets"] if r["off"])}
+    for d in o["days"]:
+        for k, v in d["flags"].items():
+            if v:
+                res[k] = res.get(k, 0) + 1
     if not lines:
         return res
     outs = run_driver(lines, unit="day")
@@ -452,8 +479,9 @@ def run_l2(nsims=None, name="day", timeout=300):
     for c, r in zip(cfgs, res):
         if r.get("hang") or r.get("harness_error"):
             herr.append(r.get("harness_error", "hang")[-500:]); continue
-        for k in ("days", "resets", "agree", "disagree", "gs_days", "summaries", "pre_season_days", "order_bad", "resets_gdd", "resets_off"):
-            tot[k] += r.get(k, 0)
+        for k, v in r.items():
+            if isinstance(v, int) and not isinstance(v, bool) and k != "method":
+                tot[k] += v
         meth[r.get("method")] += 1
         if r.get("error"):
             errs["%s@%s" % (r["error"]["type"], r["error"]["origin"])] += 1
@@ -469,7 +497,14 @@ def run_l2(nsims=None, name="day", timeout=300):
 
 
 def gen(rng, n):
-    """l1-style stream: the days (and resets) of as many random simulations as needed for n cases"""
+    """l1-style stream: the days (and resets) of as many random simulations as needed for n cases, then a small
+    malformed stream"""
+    nm = max(2, n // 500) if n >= 100 else 0
+    yield from _gen_valid(rng, n - nm)
+    yield from gen_malformed(rng, nm)
+
+
+def _gen_valid(rng, n):
     k = 0; i = 0
     while k < n:
         cfg = sim.gen_config(rng_for("cfg", "day-gen", rng.random(), i), method=i % 6); i += 1
@@ -480,9 +515,17 @@ def gen(rng, n):
         for r in o["resets"]:
             if k >= n: return
             yield Case("reset", r["line"], r["exp"], {"cfg": cfg, "season": r["season"]}); k += 1
-    # malformed stream: see gen_malformed
 
 
 def gen_malformed(rng, n):
-    """a season index without a crop: the implementation raises IndexError before any process is called"""
-    return iter(())
+    """kind="malformed": a process raises (growing_degree_day, the first call of an in-season day, is rebound to raise):
+    the implementation's step raises and writes nothing; the model's replay has no result for that call and signals an
+    error.  (The orchestration itself has no raising path: its only index operations, Seasonal_Crop_List[season] and
+    z_gw[step], are made with indices maintained by the clock, which is Clock.v's unit.)"""
+    k = 0; i = 0
+    while k < n and i < 4 * n + 8:
+        cfg = sim.gen_config(rng_for("cfg", "day-mal", rng.random(), i), start_mode="at", seasons=1); i += 1
+        o = run_sim(cfg, max_days=40, fail_gd_on=rng.randint(1, 20))
+        for d in o["malformed"]:
+            if k >= n: return
+            yield Case("day", d["line"], d["exp"], {"cfg": cfg, "tsc": d["tsc"]}, kind="malformed"); k += 1
